@@ -59,7 +59,10 @@ def collect_traces(ctx, focus, total, tag, agg, chunk=250, race=False):
                             "joe:crash:" + crashed["panic"])
             else:
                 raise core.ToolFailure("the scenario driver itself crashed: %s\n%s" % (crashed["panic"], crashed["stack"]))
-            # continue after the crashing scenario
+            # continue after the crashing scenario (three crashes are verdict enough)
+            if agg["crashes"] >= 3:
+                agg["stop"] = True
+                return traces
             done = (crashed["seed"] - base) + 1
             continue
         if blocked:
